@@ -10,7 +10,10 @@
 //     W<v><o>   read lock + upgrade; on success store v (1..9) into all 3 words; o=1: unlock_and_obsolete
 #include "global.hpp"
 
+#include <atomic>
+#include <chrono>
 #include <cstdint>
+#include <thread>
 #include <cstdio>
 #include <cstring>
 #include <memory>
@@ -112,6 +115,54 @@ const char* kind_name(unsigned k) {
 
 }  // namespace
 
+// --spinprobe N: free-running (no scheduler).  The main thread holds the write
+// guard; a reader calls try_read_lock() and must still be inside it after N
+// iterations of the wait loop (counted through the lock_spin hook) - a reader
+// waits for as long as the writer holds the lock, it never gives up with a
+// section on a write-locked word.  After the unlock the reader must return
+// with a section that validates.
+namespace spinprobe {
+std::atomic<unsigned long> spins{0};
+void sched_cb(unsigned k, const void*) {
+  if (k == unodb::detail::verif::lock_spin) spins.fetch_add(1, std::memory_order_relaxed);
+}
+int run(unsigned long n) {
+  unodb::optimistic_lock lock;
+  int problems = 0;
+  {
+    auto rcs = lock.try_read_lock();
+    unodb::optimistic_lock::write_guard g{std::move(rcs)};
+    if (g.must_restart()) { std::puts("P spinprobe: cannot take the write guard"); return 1; }
+    unodb::detail::verif::sched_hook.store(&sched_cb);
+    std::atomic<bool> returned{false}, valid{false}, restart{false};
+    std::thread reader([&]() {
+      auto r = lock.try_read_lock();
+      returned.store(true);
+      restart.store(r.must_restart());
+      if (!r.must_restart()) valid.store(r.try_read_unlock());
+    });
+    const auto t0 = std::chrono::steady_clock::now();
+    while (spins.load() < n && !returned.load() &&
+           std::chrono::steady_clock::now() - t0 < std::chrono::seconds(20))
+      std::this_thread::yield();
+    const auto seen = spins.load();
+    if (returned.load()) {
+      std::printf("P spinprobe: try_read_lock returned after %lu wait iterations while the lock was still write-locked\n", seen);
+      ++problems;
+    }
+    g.unlock();
+    reader.join();
+    unodb::detail::verif::sched_hook.store(nullptr);
+    if (!problems && (restart.load() || !valid.load())) {
+      std::puts("P spinprobe: the section the reader obtained after the unlock does not validate");
+      ++problems;
+    }
+    std::printf("S spinprobe spins=%lu problems=%d\n", seen, problems);
+  }
+  return 0;
+}
+}  // namespace spinprobe
+
 int main(int argc, char** argv) {
   std::string prog_s = "R30|W50";
   unsigned bound = 1;
@@ -126,6 +177,7 @@ int main(int argc, char** argv) {
     if (k == "--random") nrandom = std::stoul(v);
     if (k == "--seed") seed = std::stoull(v);
     if (k == "--replay") replay = v;
+    if (k == "--spinprobe") return spinprobe::run(std::stoul(v));
   }
   const auto progs = parse(prog_s);
   unsigned long execs = 0, problems = 0;
